@@ -180,7 +180,7 @@ def run_case(a):
         from symx.par import par_explore
         Ctx.relax = None
         outs, ex, total, dt = par_explore(harness(n, steps, via_class), lambda ps: analyse(ps, n), nprocs=16, frontier=32,
-                                          tlimit=tlimit, max_paths=200000)
+                                          tlimit=tlimit, max_paths=200000, chunk=100)
         agg = {'n': n, 'steps': steps, 'via_class': via_class, 'paths': total, 'exhaustive': ex, 'bad': [], 'stat': {}, 'nq': 0,
                'secs': time.time() - t0}
         for o in outs:
@@ -266,7 +266,36 @@ def concrete_violation(extra=None):
     return False, ''
 
 
+def recovery_witness():
+    """fixed-seed samples (n = 3000, tau = 0.5) of each family, drawn with the library's own sampler: select_copula returns the
+    generating family (deterministic witness of the statistical clause), is a function of X alone (same answer under a
+    different global RNG state) and does not consume the global RNG"""
+    warnings.simplefilter('ignore')
+    for cls, tau in ((Clayton, 0.5), (Gumbel, 0.5), (Frank, 0.5), (Gumbel, 0.35), (Clayton, 0.65)):
+        c = cls(random_state=11)
+        c.tau = tau
+        c.theta = c.compute_theta()
+        X = c.sample(3000)
+        np.random.seed(5)
+        st = np.random.get_state()[1].copy()
+        r1 = select_copula(X)
+        if not np.array_equal(np.random.get_state()[1], st):
+            return True, f'select_copula on {len(X)} rows consumes the global NumPy random state'
+        np.random.seed(6)
+        r2 = select_copula(X)
+        if type(r1) is not type(r2) or r1.theta != r2.theta:
+            return True, (f'select_copula is not a function of X: {type(r1).__name__}(theta={r1.theta}) and {type(r2).__name__}(theta={r2.theta}) '
+                          f'for the same {len(X)}-row array under two global RNG states')
+        if type(r1) is not cls:
+            return True, f'a seeded {cls.__name__} sample (n=3000, tau={tau}) is selected as {type(r1).__name__}'
+    return False, ''
+
+
 def replay(d):
+    if d.get('kind') == 'recovery':
+        bad, detail = recovery_witness()
+        print(detail)
+        return bad
     bad, detail = concrete_violation(d.get('data'))
     print(detail)
     return bad
@@ -316,4 +345,8 @@ def run(tier, seed):
     ck.traces_validated = len(datasets())
     if b:
         ck.violation('conformance', detail, {})
+    b, detail = recovery_witness()
+    ck.traces_validated += 5
+    if b:
+        ck.violation('recovery witness', detail, {'kind': 'recovery'})
     return ck.finish()
